@@ -2,6 +2,7 @@
 From Coq Require Import ZArith NArith List Bool Reals Floats String. Import ListNotations.
 From PV Require Import Num NumR model.Tables model.Spec model.Geom model.Optimiser model.OptSpec model.Pipeline model.Svg model.Json gen.GenTables gen.GenSchema proofs.OptStruct proofs.OptLoop proofs.LatticeFacts proofs.TablesFacts proofs.PipelineFacts proofs.OutputFacts proofs.FloatFacts proofs.OrderFacts.
 From PV Require Import model.Cli gen.GenCli proofs.CliFacts.
+From PV Require Import gen.GenFns proofs.SrcOrder.
 
 Theorem C10_analyse_best_replica :
   forall (A : Type) (leb : A -> A -> bool), (forall a b : A, leb a b = true \/ leb b a = true)
@@ -71,4 +72,22 @@ Theorem C10_names_resolve_case_insensitively :
     got)%string) gen_name_lookups = true.
 Proof. exact names_resolve_case_insensitively. Qed.
 Print Assumptions C10_names_resolve_case_insensitively.
+
+
+Theorem S_state_order_is_source :
+  forall (NN : Num) (a b : option (carrier NN)), gen_state_eq NN a b = score_eq NN a b /\
+    gen_state_partial_cmp NN a b = score_cmp NN a b /\ gen_state_cmp NN a b = cmp_unwrap NN a b
+    /\ gen_lj_state_eq NN a b = score_eq NN a b /\ gen_lj_state_partial_cmp NN a b = score_cmp
+    NN a b /\ gen_lj_state_cmp NN a b = cmp_unwrap NN a b.
+Proof. exact state_order_is_source. Qed.
+Print Assumptions S_state_order_is_source.
+
+
+
+Theorem C10_order_source_translated :
+  translated_gen_state_eq = true /\ translated_gen_state_partial_cmp = true /\
+    translated_gen_state_cmp = true /\ translated_gen_lj_state_eq = true /\
+    translated_gen_lj_state_partial_cmp = true /\ translated_gen_lj_state_cmp = true.
+Proof. exact order_source_translated. Qed.
+Print Assumptions C10_order_source_translated.
 
